@@ -626,14 +626,15 @@ def gen_comb(rng, tag):
     with alpha = 1.  Generic coordinates (eighths, no two node sides of different nodes on one scan line).  ops: MOVE (sometimes followed by the
     same MOVE again = the drag goes on in the next frame, or a MOVE in the other axis) or LAYOUT with a Lock on the movers (ConstrainedFDLayout::run
     -> setPosition -> moveTo of the addon)."""
-    K = rng.range(20, 80)
+    layout = rng.chance(1, 5)                        # through ConstrainedFDLayout::run: the drag has to outlast moveTo's budget AND that of applyForcesAndConstraints
+    K = rng.range(40, 80) if layout else rng.range(20, 80)
     variant = rng.choice(['parallel', 'parallel', 'parallel', 'fan', 'alternate'])
     sp = rng.range(11, 24)                           # spacing of the edges
     H = rng.range(120, 260)                          # y-span
     slant = rng.range(-8, 8) + rng.range(0, 7) / 8.0
     e8 = lambda: rng.range(0, 7) / 8.0
     nodes, edges = [], []
-    nm = rng.choice([1, 1, 1, 2, 2, 3])
+    nm = rng.choice([2, 3, 3]) if layout else rng.choice([1, 1, 1, 2, 2, 3])
     # movers first (ids 0..nm-1): disjoint y-bands inside (20, H - 20)
     band = (H - 40.0) / nm
     from_right = rng.chance(1, 2)
@@ -676,7 +677,9 @@ def gen_comb(rng, tag):
     want_cap = rng.chance(2, 3)
     cs = []
     for m in movers:
-        if want_cap:
+        if layout:
+            c = K
+        elif want_cap:
             lo = min(K, 100 // (2 * nm) + 2)
             c = rng.range(lo, K) if lo <= K else K
         else:
@@ -699,7 +702,7 @@ def gen_comb(rng, tag):
         lst.append((m, tgt, rng.choice([10000, 10000, 1000])))
     if rng.chance(1, 3):        # end nodes asked (heavily) to stay where they are
         lst += [(i, corner(nodes[i], CEN)[0], 1000) for i in range(nm, len(nodes))]
-    kind = rng.below(8)
+    kind = 7 if layout else rng.below(7)
     if kind < 5:
         ops = [('MOVE', 0, lst)]
     elif kind == 5:
